@@ -296,12 +296,13 @@ def harnesses(tier):
         else:
             # thorough: one more preemption at line granularity, and the quick bound again at bytecode granularity inside the
             # functions that touch process-wide data (bound 3 at bytecode granularity is out of reach: points^3)
-            hs.append(((a, b), same2, 3, 'line'))
+            if a == b:
+                hs.append(((a, b), same2, 3, 'line'))     # the forced collision of a body with itself
             hs.append(((a, b), same2, 2, 'instr'))
     for a, b in itertools.combinations(S, 2):
         hs.append(((a, b), mixed, 2, gran))
-    for t in itertools.combinations(S, 3):
-        hs.append((t, [('2.5', STRICT)] * 3, 1 if q else 2, 'line'))
+    for i, t in enumerate(itertools.combinations(S, 3)):
+        hs.append((t, [('2.5', STRICT)] * 3, 1 if (q or i % 3) else 2, 'line'))
     for a in S:
         for b in M:
             hs.append(((a, b), same2, 1, gran))
@@ -533,8 +534,8 @@ def run(tier, seed, extra):
     cold = [('cold', v, k) for v in (('2.5', '2.7', '2.3') if tier == 'quick' else common.VERSIONS) for k in ((0, 2, 5) if tier == 'quick' else range(6))]
     hs = common.rotate(hs + cold + [('threadlocal',)], seed)
     extra['bounds'] = {'threads': '2 (3 for small bodies)',
-                       'preemption_bound': {'small x small': 2 if tier == 'quick' else '3 at line granularity, 2 at bytecode granularity', 'x medium': 1,
-                                            'large': 0 if tier == 'quick' else 1, '3 threads': 1 if tier == 'quick' else 2},
+                       'preemption_bound': {'small x small': 2 if tier == 'quick' else '3 at line granularity (a body with itself), 2 at bytecode granularity (all pairs)', 'x medium': 1,
+                                            'large': 0 if tier == 'quick' else 1, '3 threads': 1 if tier == 'quick' else '2 for every third triple, 1 for the others'},
                        'granularity': 'line' if tier == 'quick' else 'line + bytecode in shared-state functions',
                        'harnesses': len(hs)}
     res = common.run_units(run_unit, hs, tier, fresh_process_per_unit=True)
